@@ -36,6 +36,8 @@ def specs_for(ctx):
         dict(D=2, target="sphere", box="sym", noise="det", scale=1e-21, options=dict(max_fun_evals=70), seed=ctx.seed * 10 + 13),
         dict(D=3, target="ellipsoid", box="sym", noise="det", scale=1e-21, options=dict(max_fun_evals=70), seed=ctx.seed * 10 + 14),
         dict(D=2, target="sphere", box="sym", noise="det", scale=1e-21, options=dict(max_fun_evals=70), seed=ctx.seed * 10 + 5),
+        # an integer-typed start point (round numbers): the returned x is still a float point that was evaluated
+        dict(D=2, target="rosen", box="sym", noise="det", x0_value=[1, -1], x0_int=True, options=dict(max_fun_evals=60), seed=ctx.seed * 10 + 15),
         # uncertainty_handling=False given explicitly
         dict(D=2, target="rosen", box="sym", noise="det", options=dict(max_fun_evals=70, uncertainty_handling=False), seed=ctx.seed * 10 + 12),
         # budgets that end the run right after the initial design / in the first iterations
